@@ -15,11 +15,12 @@ type vC05Doc struct {
 	Vec  []float32
 	Text string
 	S    string // metadata {s: S} when non-empty
+	N    int    // metadata {n: N} when non-zero (a SPARSE numeric field: most documents have none)
 }
 
 var vC05Docs = []vC05Doc{
-	{Vec: []float32{1, 0}, Text: "a", S: "x"},
-	{Vec: []float32{0, 1}, Text: "a b", S: "y"},
+	{Vec: []float32{1, 0}, Text: "a", S: "x", N: 5},
+	{Vec: []float32{0, 1}, Text: "a b", S: "y", N: 7},
 	{Vec: []float32{3, 4}, Text: "c", S: "x"},
 	{Vec: []float32{1, 0}},
 	{Text: "a"},
@@ -35,7 +36,7 @@ func (c vC05Cfg) String() string { return fmt.Sprintf("hybridsearch V=%v T=%v M=
 type vC05Query struct {
 	Vec    []float32
 	Texts  []string
-	Filter int // 0 none, 1 Eq(s,x), 2 Eq(s,none), 3 group x OR y, 4 Eq(s,y)
+	Filter int // 0 none, 1 Eq(s,x), 2 Eq(s,none), 3 group x OR y, 4 Eq(s,y), 5 Eq(s,x) AND Lt(n,100), 6 Eq(s,x) AND Range(n,-10,10)
 	K      int
 	Fusion int  // 0 ws(1,1) 1 ws(.3,.7) 2 rrf60 3 max 4 min
 	ByKind bool // the fusion is not handed over as an object built from a literal configuration: fusion 0 = no call at all (the default), 2 / 3 / 4 = WithFusionKind
@@ -51,6 +52,7 @@ func (q vC05Query) String() string {
 }
 
 type vC05Sys struct {
+	seenN bool // a document with the numeric field n was added in this history
 	c     *vCtx
 	cfg   vC05Cfg
 	cfgS  string
@@ -69,7 +71,7 @@ func newC05Sys(c *vCtx, cfg vC05Cfg, maxN int) *vC05Sys {
 	texts := [][]string{nil, {"a"}, {"a b"}, {"z"}, {"a", "b"}}
 	for _, v := range vecs {
 		for _, t := range texts {
-			for f := 0; f <= 4; f++ {
+			for f := 0; f <= 6; f++ {
 				if v == nil && t == nil && f == 0 {
 					continue
 				}
@@ -119,6 +121,7 @@ func (s *vC05Sys) Reset() {
 		d.VectorWeight, d.TextWeight, d.K = 0.25, 3, 1
 	}
 	s.live = map[uint32]int{}
+	s.seenN = false
 	s.tdocs = map[uint32]*vC03Doc{}
 	s.rem = map[uint32]bool{}
 	s.nAdd = 0
@@ -156,6 +159,9 @@ func (s *vC05Sys) Apply(op vOp, hist []vOp, check bool) {
 		var md map[string]interface{}
 		if d.S != "" {
 			md = map[string]interface{}{"s": d.S}
+			if d.N != 0 {
+				md["n"] = d.N
+			}
 		}
 		id := uint32(op.A)
 		var err error
@@ -172,6 +178,9 @@ func (s *vC05Sys) Apply(op vOp, hist []vOp, check bool) {
 			break
 		}
 		s.live[id] = op.B
+		if md != nil && d.N != 0 {
+			s.seenN = true
+		}
 		if s.cfg.T && d.Text != "" {
 			s.tdocs[id] = &vC03Doc{text: d.Text, tokens: vRefTokens(d.Text)}
 		}
@@ -215,6 +224,18 @@ func (s *vC05Sys) filter(f int) (set map[uint32]bool, filters []Filter, groups [
 	case 4:
 		match(func(v string) bool { return v == "y" })
 		filters = []Filter{Eq("s", "y")}
+	case 5, 6:
+		// a chain (AND): a categorical filter first, then a comparison on the sparse numeric
+		// field that the number 0 would satisfy - a document without the field has no value
+		for id, di := range s.live {
+			if d := vC05Docs[di]; d.S == "x" && d.N != 0 && d.N < 100 {
+				set[id] = true
+			}
+		}
+		filters = []Filter{Eq("s", "x"), Lt("n", 100)}
+		if f == 6 {
+			filters = []Filter{Eq("s", "x"), Range("n", -10, 10)}
+		}
 	}
 	return
 }
@@ -440,6 +461,10 @@ func (s *vC05Sys) observe(h []string) {
 		}
 		if q.Texts != nil {
 			srch = srch.WithText(q.Texts...)
+		}
+		if q.Filter >= 5 && !s.seenN {
+			// a comparison on a field that no document ever had is C04's business
+			continue
 		}
 		cand, filters, groups := s.filter(q.Filter)
 		if filters != nil {
